@@ -18,7 +18,10 @@ Metas == { Meta("prog", NoM, NoM),
                       [name |-> "foo", hasargs |-> TRUE, args |-> <<>>, kw |-> <<Kw("copies", I(3))>>]),
            Meta("p3", [name |-> "dev", hasargs |-> TRUE, args |-> <<>>,
                        kw |-> <<Kw("cutoffs", LstE(<<I(5), I(7)>>)), Kw("labels", LstE(<<[t |-> "str", s |-> "a"], [t |-> "str", s |-> "b"]>>)), Kw("shots", I(3))>>],
-                      [name |-> "foo", hasargs |-> TRUE, args |-> <<>>, kw |-> <<Kw("u", LstE(<<I(1)>>)), Kw("v", LstE(<<F(1, 2), I(2)>>))>>]) }
+                      [name |-> "foo", hasargs |-> TRUE, args |-> <<>>, kw |-> <<Kw("u", LstE(<<I(1)>>)), Kw("v", LstE(<<F(1, 2), I(2)>>))>>]),
+           \* positional options are evaluated and ignored (with a warning); only the keyword options are kept
+           Meta("p4", [name |-> "dev", hasargs |-> TRUE, args |-> <<I(3), F(1, 2)>>, kw |-> <<Kw("shots", I(7))>>],
+                      [name |-> "foo", hasargs |-> TRUE, args |-> <<[t |-> "str", s |-> "x"]>>, kw |-> <<>>]) }
 
 Items == {
   [t |-> "var", ty |-> "float", x |-> "al", e |-> F(1, 2)],
